@@ -67,6 +67,65 @@ fn run_val(v: &Val, prefill: &[u8]) -> (W, W, W, Result<Vec<u8>, String>) {
     }
 }
 
+/// The byte payload held in a fixed-size array (`[u8; N]`, `Box<[u8; N]>`, `&[u8; N]`) and written
+/// with method-call syntax - caller code that compiles against the crate as it is (the array
+/// unsizes to a slice) and must keep meaning the same thing.
+fn array_receivers<const N: usize>(fill: u8, prefill: &[u8], rec: &mut Recorder) {
+    let case = format!("array:{}x{}|{}", fill, N, prefill.len());
+    rec.case(hash_bytes(case.as_bytes()), true);
+    rec.class(if N > 65535 { "oracle:array|must-be-refused" } else { "oracle:array|encodable" }, || case.clone());
+    let r = guard(|| {
+        let boxed: Box<[u8; N]> = vec![fill; N].into_boxed_slice().try_into().expect("length N");
+        let mut outs: Vec<(&'static str, Result<(usize, Vec<u8>), Vec<u8>>)> = Vec::new();
+        let mut one = |name: &'static str, f: &dyn Fn(&mut Writer) -> std::io::Result<usize>| {
+            let mut w = Writer::from(prefill.to_vec());
+            let r = f(&mut w);
+            let out = w.finish();
+            outs.push((name, match r {
+                Ok(n) => Ok((n, out)),
+                Err(_) => Err(out),
+            }));
+        };
+        one("Box<[u8; N]>.write_to", &|w| boxed.write_to(w));
+        one("(*box).write_to", &|w| (*boxed).write_to(w));
+        let r: &[u8; N] = &boxed;
+        one("&[u8; N].write_to", &|w| r.write_to(w));
+        one("(&&[u8; N]).write_to", &|w| (&r).write_to(w));
+        let tb = boxed.to_bytes().map_err(|_| ());
+        (outs, tb)
+    });
+    rec.events(5);
+    let viol = |rec: &mut Recorder, rule: &str, d: String| {
+        rec.violation(&format!("{}:array", rule), case.clone(), format!("array|{}", if N > 65535 { "oversized" } else { "encodable" }), format!("{} for a [u8; {}] written into a writer holding {} bytes: {}", rule, N, prefill.len(), d));
+    };
+    match r {
+        Err(m) => viol(rec, "panic", m),
+        Ok((outs, tb)) => {
+            for (name, o) in outs {
+                match (o, N > 65535) {
+                    (Ok((n, out)), false) => {
+                        if n != N || out.len() != prefill.len() + N || out[..prefill.len()] != prefill[..] || out[prefill.len()..].iter().any(|&b| b != fill) {
+                            viol(rec, "appended-bytes", format!("{} returned {} and left {} bytes in the writer", name, n, out.len()));
+                        }
+                    }
+                    (Err(_), false) => viol(rec, "refused-encodable", format!("{} failed although the writer is below its limit", name)),
+                    (Ok((n, out)), true) => viol(rec, "oversized-accepted", format!("{} accepted {} bytes (returned {}, writer now {} bytes)", name, N, n, out.len())),
+                    (Err(out), true) => {
+                        if out != prefill {
+                            viol(rec, "refused-but-wrote", format!("{} refused the value but the writer went from {} to {} bytes", name, prefill.len(), out.len()));
+                        }
+                    }
+                }
+            }
+            match (tb, N > 65535) {
+                (Ok(t), false) if t.len() == N && t.iter().all(|&b| b == fill) => {}
+                (Err(()), true) => {}
+                (other, _) => viol(rec, "to_bytes", format!("to_bytes() on the array gives {:?}", other.map(|t| t.len()))),
+            }
+        }
+    }
+}
+
 fn judge(v: &Val, pre: &Blob, rec: &mut Recorder) {
     let case = format!("val:{}|{}", v.text(), pre.text());
     rec.case(hash_bytes(case.as_bytes()), true);
@@ -220,9 +279,30 @@ impl Monitor for C20 {
             exhaustive("c20-tlv-types", if tier == Tier::Miri { 64 } else { 256 * 6 * 4 }),
             exhaustive("c20-slices", if tier == Tier::Miri { 6 } else { 72 * tier.n(1, 1, 10) }),
             stream("c20-rand", tier.n(60, 300_000, 30_000_000)),
+            exhaustive("calling-context", 2),
+            exhaustive("c20-arrays", if tier == Tier::Miri { 2 } else { 14 }),
         ]
     }
     fn run_case(&self, stream: &str, idx: u64, seed: u64, rec: &mut Recorder) {
+        if stream == "calling-context" {
+            if !spec::engine::layer().starts_with("miri") {
+                crate::adapt::judge_context(&["C20"], rec);
+            }
+            return;
+        }
+        if stream == "c20-arrays" {
+            let pre = Blob::new(idx + 2, [0usize, 1, 16, 300][(idx % 4) as usize]).bytes();
+            match idx % 7 {
+                0 => array_receivers::<0>(0x11, &pre, rec),
+                1 => array_receivers::<3>(0x22, &pre, rec),
+                2 => array_receivers::<300>(0x33, &pre, rec),
+                3 => array_receivers::<65535>(0x44, &pre[..pre.len().min(1)], rec),
+                4 => array_receivers::<65536>(0x55, &pre, rec),
+                5 => array_receivers::<65537>(0x66, &pre, rec),
+                _ => array_receivers::<70000>(0x77, &pre, rec),
+            }
+            return;
+        }
         let mut rng = Rng::for_case(seed, stream_id(stream), idx);
         let (v, pre) = gen(stream, idx, &mut rng);
         judge(&v, &pre, rec);
